@@ -3,19 +3,32 @@ import LokiModel.C32.Model
 import LokiModel.C32.Encode
 open LokiModel.Fir LokiModel.C32 Sexp
 
-/-- `(c32 op flag kmode prog inputs)` → `(ok prog')` | `(outside-class)` | `(oracle-only)` -/
+/-- is the main unit inside the domain of `C32_constprop_sound_loopfree`? -/
+def cpDomain (p : Program) : Bool :=
+  match findUnit p p.main with
+  | some u => match declMap u.decls with
+      | some m => cpOK (arraysOf u.decls) (declTy u.decls) u.body m
+      | none => false
+  | none => false
+
+/-- `(c32 op flag kmode prog inputs)` → `(ok prog' (dom b))` | `(error kind)` | `(outside-class)` | `(oracle-only)`;
+`dom` = the program is inside the domain of the soundness theorem of that transformation -/
 def step : Sexp → Option Sexp
   | list [atom "c32", _, _, atom "o", _, _] => some (list [atom "oracle-only"])
-  | list [atom "c32", atom op, atom flag, atom "k", prog, _] => do
+  | list [atom "c32", _, _, atom "og", _, _] => some (list [atom "oracle-only"])
+  | list [atom "c32", atom op, atom flag, atom _k, prog, _] => do
       let p ← decProgram prog
-      let r ← match op with
-        | "dc" => some (dcProgram (flag == "simp") p)
-        | "cp" => some (cpProgram p)
-        | _ => none
-      if op == "dc" && KnownDcElseIf (flag == "simp") p then pure (list [atom "error", atom "validationerror"]) else
-      match r with
-      | some p' => pure (list [atom "ok", encProgram p'])
-      | none => pure (list [atom "outside-class"])
+      match op with
+      | "dc" =>
+          if KnownDcElseIf (flag == "simp") p then pure (list [atom "error", atom "validationerror"]) else
+          match dcProgram (flag == "simp") p with
+          | some p' => pure (list [atom "ok", encProgram p', list [atom "dom", ofBool true]])
+          | none => pure (list [atom "outside-class"])
+      | "cp" =>
+          match cpProgram p with
+          | some p' => pure (list [atom "ok", encProgram p', list [atom "dom", ofBool (cpDomain p && p.units.length == 1)]])
+          | none => pure (list [atom "outside-class"])
+      | _ => none
   | _ => none
 
 def main : IO _root_.Unit := driverMain step
